@@ -17,6 +17,10 @@ type scen struct {
 	maxCq    int
 	plans    []poolx.ConnPlan
 	run      func(s *poolx.Session, w *poolx.World) (closed bool, queries []int)
+	// must: queries (by index) for which every fresh connection works, nobody cancels and the transport stays
+	// open; extra = connections that die while such a query is under way (added to the stale count)
+	must  func(q int) bool
+	extra int
 }
 
 func emit(w *hx.Writer, id string, sc scen, s *poolx.Session, closed bool, queries []int, desc string) {
@@ -24,7 +28,7 @@ func emit(w *hx.Writer, id string, sc scen, s *poolx.Session, closed bool, queri
 		co, final := s.Obs(q, closed)
 		ps := make([]string, len(co.Passes))
 		for i, p := range co.Passes {
-			ps[i] = hx.App("mkOP", hx.Bool(p.Acq), hx.Bool(p.Created), hx.Bool(p.Ok), hx.Bool(p.Written))
+			ps[i] = hx.App("mkOP", hx.Bool(p.Acq), hx.Bool(p.Created), hx.Bool(p.Ok), hx.Bool(p.Written), hx.Bool(p.Dead))
 		}
 		if final == 0 && co.Tag != q {
 			final = 9 // a reply that is not this query's: never matches the model
@@ -35,9 +39,10 @@ func emit(w *hx.Writer, id string, sc scen, s *poolx.Session, closed bool, queri
 		}
 		w.Emit(map[bool]string{true: "pipeline", false: "reuse"}[sc.pipeline], hx.Case{
 			ID:  fmt.Sprintf("%s/q%d", id, q),
-			Coq: hx.App("CRetry", hx.Bool(sc.pipeline), hx.List(ps), hx.Bool(co.Cancelled), hx.Bool(closed), hx.Ni(final), hx.Ni(len(co.Conns))),
+			Coq: hx.App("CRetry", hx.Bool(sc.pipeline), hx.List(ps), hx.Bool(co.Cancelled), hx.Bool(closed), hx.Ni(final), hx.Ni(len(co.Conns)),
+				hx.Ni(co.Stale+sc.extra), hx.Bool(sc.must != nil && sc.must(q) && !co.Cancelled && !closed)),
 			Desc: map[string]any{"scenario": desc, "query": q, "passes": len(co.Passes), "final": final, "err": errs,
-				"conns": len(co.Conns)},
+				"conns": len(co.Conns), "stale": co.Stale + sc.extra},
 			Replay: []string{"-only", id},
 		})
 	}
@@ -77,6 +82,24 @@ func seq(n int) func(s *poolx.Session, w *poolx.World) (bool, []int) {
 	}
 }
 
+// inflight: k queries in flight on one pipelined connection; the server goes away; the client's Close of that
+// socket is slow. The queries queued behind the first one must be retried on ANOTHER connection and succeed.
+func inflight(k int) func(s *poolx.Session, w *poolx.World) (bool, []int) {
+	return func(s *poolx.Session, w *poolx.World) (bool, []int) {
+		var qs []int
+		for i := 0; i < k; i++ {
+			s.Start(i)
+			s.WaitWritten(i, 0, wait)
+			qs = append(qs, i)
+		}
+		w.Conns[0].Kill()
+		for i := 0; i < k; i++ {
+			s.Wait(i, wait)
+		}
+		return false, qs
+	}
+}
+
 func repeatPlan(p poolx.ConnPlan, n int) []poolx.ConnPlan {
 	out := make([]poolx.ConnPlan, n)
 	for i := range out {
@@ -87,7 +110,7 @@ func repeatPlan(p poolx.ConnPlan, n int) []poolx.ConnPlan {
 
 // stale builds a pool of m connections that each served one query and are
 // now dead in the given way, then sends extra queries one by one.
-func stale(m, extra int) func(s *poolx.Session, w *poolx.World) (bool, []int) {
+func stale(m, extra int, waitNoticed bool) func(s *poolx.Session, w *poolx.World) (bool, []int) {
 	return func(s *poolx.Session, w *poolx.World) (bool, []int) {
 		var qs []int
 		for i := 0; i < m; i++ {
@@ -98,6 +121,10 @@ func stale(m, extra int) func(s *poolx.Session, w *poolx.World) (bool, []int) {
 		w.Release()
 		for i := 0; i < m; i++ {
 			s.Wait(i, wait)
+		}
+		if waitNoticed {
+			// the server closed them right behind the reply: let the client notice before the next query
+			w.WaitNoStale(wait)
 		}
 		for i := m; i < m+extra; i++ {
 			s.Run(i, wait)
@@ -121,12 +148,21 @@ func main() {
 		for _, after := range []string{"close", "rst", "reset"} {
 			for k := 1; k <= 3; k++ {
 				do(fmt.Sprintf("cat:%s:seq-%s-after-%d", tn, after, k), "sequential stream; every connection dies ("+after+") after k replies",
-					scen{pipeline: pl, maxCq: 8, plans: repeatPlan(poolx.ConnPlan{Dial: "ok", Answer: k, After: after}, 12), run: seq(9)})
+					scen{pipeline: pl, maxCq: 8, plans: repeatPlan(poolx.ConnPlan{Dial: "ok", Answer: k, After: after}, 12), run: seq(9),
+						must: func(int) bool { return true }})
 			}
 			for _, m := range []int{1, 2, 3, 4, 5} {
 				plans := repeatPlan(poolx.ConnPlan{Dial: "ok", Answer: 1, After: after, HoldAll: true}, m)
 				do(fmt.Sprintf("cat:%s:stale-%s-%d", tn, after, m), "pool of m connections that died ("+after+") while idle, then 2 more queries",
-					scen{pipeline: pl, maxCq: 1, plans: plans, run: stale(m, 2)})
+					scen{pipeline: pl, maxCq: 1, plans: plans, run: stale(m, 2, after == "close"),
+						must: func(q int) bool { return q >= m }})
+			}
+		}
+		if pl {
+			for _, k := range []int{2, 4, 8} {
+				do(fmt.Sprintf("cat:%s:inflight-eof-slow-close-%d", tn, k), "k queries in flight on one connection, the server goes away, Close of the socket is slow",
+					scen{pipeline: pl, maxCq: 16, plans: []poolx.ConnPlan{{Dial: "ok", Answer: 100, After: "healthy", HoldAll: true, SlowClose: 60 * time.Millisecond}},
+						run: inflight(k), must: func(q int) bool { return q > 0 }, extra: 1})
 			}
 		}
 		do("cat:"+tn+":dial-error", "the first dial fails, the next works",
